@@ -192,6 +192,29 @@ class C15(E1Prop):
             declined = [i for i, st in rec['prs_after'].items()
                         if st == 'DECLINED' and
                         rec['prs_before'].get(i) != 'DECLINED']
+            own_w = lambda r: r.startswith('w/') and \
+                r.endswith('/' + pr['src'])
+            if status == 'ResetComplete':
+                # fault or not: "Reset complete" means the integration
+                # branches are gone
+                kept = sorted(r for r in before if own_w(r) and
+                              after.get(r) == before[r])
+                fc = str(rec.get('faulted_cmd') or '')
+                if kept and faulted and fc and \
+                        not fc.startswith('git push'):
+                    # a failed local probe (`git rev-parse`, `git branch`)
+                    # is read as "no such branch": outside the statement,
+                    # counted
+                    w.probe('reset-complete-with-a-branch-kept-after-a-'
+                            'failed-probe(observation)')
+                    kept = []
+                if kept:
+                    raise Violation(
+                        'C15', 'C15:reset-complete-but-branches-remain',
+                        'PR #%d: %s answered ResetComplete%s but %s are '
+                        'still on the remote, untouched' % (
+                            pid, cmd, ' (one git command failed once)'
+                            if faulted else '', kept), {})
             if manual and cmd == 'reset' and faulted:
                 # with a git command failing underneath, whatever the job
                 # answers, the manual work must still be on the remote
